@@ -8,8 +8,11 @@
    NOT modelled).  Matrices are functions nat -> nat -> Z with explicit dimensions: a chain is a list of
    (number of columns, matrix); the number of rows of an entry is the number of columns of its predecessor (any
    bond dimensions; the rows of the first entry are the shared left boundary, for bc='finite' of dimension 1).
-   Tied to the code only through the dense oracle of harness/c09.py (add = alpha psi + beta phi on every generated
-   pair of states); there is no correspondence stream for these definitions. *)
+   Tied to the code by the correspondence stream `add-blocks` of harness/c09.py (harness/c09_addblocks.py,
+   Model/MpsAddCheck.v): MPS.add is called on MPS with integer tensors, trivial charges and non-uniform bond
+   dimensions (finite and segment bc) while canonical_form_finite is a no-op, and the tensors handed to the constructor
+   of the sum are compared entry by entry with `tadd (alpha*self.norm) (beta*other.norm)` applied to get_B(0, 'Th'),
+   get_B(i, 'B'); in addition the dense oracle checks add = alpha psi + beta phi on every generated pair of states. *)
 From TenpyV Require Import Base.Prelude.
 Open Scope Z_scope.
 
